@@ -15,7 +15,7 @@ say() { echo "$@" | tee -a "$LOG"; }
 if ( cd "$D" && go test -vet=off -count=1 -timeout 300s ./... 2>&1 | grep -E '^(FAIL|---|panic)' | head -3 | grep . ); then say "existing tests: FAIL with the change (not admissible)"; exit 2; else say "existing tests: pass with the change"; fi
 # demo
 DEMO=""
-for f in "$SRC"/demo_test.go "$SRC"/*_test.go; do [ -f "$f" ] && DEMO="$f" && break; done
+for f in "$SRC"/demo_test.go "$SRC"/*_test.go "$SRC"/demo_test.go.txt; do [ -f "$f" ] && DEMO="$f" && break; done
 RES_WITH=skipped; RES_WITHOUT=skipped
 if [ -n "$DEMO" ]; then
   PKGDIR=$(grep -m1 -E '^package ' "$DEMO" | awk '{print $2}')
@@ -26,9 +26,10 @@ if [ -n "$DEMO" ]; then
   if ( cd "$TD" && go test -vet=off -count=1 -timeout 300s . ) >"$D/.without" 2>&1; then RES_WITHOUT=pass; else RES_WITHOUT=fail; fi
   ( cd "$D" && git apply "$SRC/patch.diff" ); rm -f "$TD/zz_seed_demo_test.go"
 elif [ -f "$SRC/run.sh" ]; then
-  if ( cd "$D" && sh "$SRC/run.sh" ) >"$D/.with" 2>&1; then RES_WITH=pass; else RES_WITH=fail; fi
+  # run.sh gets the checkout as its argument and is started from the checkout's root (both conventions occur)
+  if ( cd "$D" && sh "$SRC/run.sh" "$D" ) >"$D/.with" 2>&1; then RES_WITH=pass; else RES_WITH=fail; fi
   ( cd "$D" && git apply -R "$SRC/patch.diff" )
-  if ( cd "$D" && sh "$SRC/run.sh" ) >"$D/.without" 2>&1; then RES_WITHOUT=pass; else RES_WITHOUT=fail; fi
+  if ( cd "$D" && sh "$SRC/run.sh" "$D" ) >"$D/.without" 2>&1; then RES_WITHOUT=pass; else RES_WITHOUT=fail; fi
   ( cd "$D" && git apply "$SRC/patch.diff" )
 fi
 say "demo with the change: $RES_WITH (want fail); without: $RES_WITHOUT (want pass)"
@@ -41,10 +42,14 @@ for P in $(echo $PROPS | tr , ' '); do
 done
 say "DETECTED BY:${DET:- none}"
 mkdir -p /verif/seeded/$ID
-cp "$SRC/patch.diff" /verif/seeded/$ID/patch.diff
+[ "$SRC" != "/verif/seeded/$ID" ] && cp "$SRC/patch.diff" /verif/seeded/$ID/patch.diff
+if [ "$SRC" != "/verif/seeded/$ID" ]; then
 [ -n "$DEMO" ] && cp "$DEMO" /verif/seeded/$ID/demo_test.go.txt
 [ -f "$SRC/run.sh" ] && cp "$SRC/run.sh" /verif/seeded/$ID/run.sh
+for aux in "$SRC"/main.go "$SRC"/demo_main.go "$SRC"/*.yml "$SRC"/*.txt; do [ -f "$aux" ] && cp "$aux" /verif/seeded/$ID/; done
+[ -f "$SRC/demo_dir" ] && cp "$SRC/demo_dir" /verif/seeded/$ID/demo_dir
 [ -f "$SRC/meta.json" ] && cp "$SRC/meta.json" /verif/seeded/$ID/agent_meta.json
+fi
 cp "$LOG" /verif/seeded/$ID/verify.log
 python3 - "$ID" "$PROPS" "$RES_WITH" "$RES_WITHOUT" "$DET" <<'PY'
 import json,sys,os
